@@ -394,6 +394,7 @@ class Interp:
         self.functions_used = {}
         self.stubs_used = {}
         self.hooks = {}            # name -> python callable(interp, args) overriding MIR fns
+        self.keep_raw_conditions = False   # True: path conditions are stored unsimplified (for the LIA shadow)
         self.observers = {}        # last path segment -> callable(interp, full name, args): called before the MIR body runs
         self.step_limit = 5_000_000
         self.steps = 0
@@ -414,11 +415,13 @@ class Interp:
 
     def branch(self, cond):
         """cond: z3 Bool.  returns python bool, forking the path when both are feasible."""
-        cond = z3.simplify(cond)
-        if z3.is_true(cond):
+        sc = z3.simplify(cond)
+        if z3.is_true(sc):
             return True
-        if z3.is_false(cond):
+        if z3.is_false(sc):
             return False
+        if self.keep_raw_conditions is False:
+            cond = sc
         k = len(self.decisions)
         if k < len(self.prefix):
             d = self.prefix[k]
@@ -537,7 +540,7 @@ class Interp:
                  'EPSILON': sys.float_info.epsilon, 'MAX': sys.float_info.max, 'MIN': -sys.float_info.max,
                  'consts::PI': math.pi}
             return Sc('f64', S.f2b(d[m.group(1)]))
-        if t.endswith('SizedTypeProperties>::ALIGN'):
+        if t.endswith('SizedTypeProperties>::ALIGN') or t.endswith('SizedTypeProperties>::SIZE'):
             return Sc('usize', 8)
         if t.startswith('ZeroSized'):
             zt = t.split(':', 1)[1].strip() if ':' in t else ''
@@ -1044,12 +1047,8 @@ class Interp:
             if op == 'Div':
                 return Sc('f64', _canon(S.f2b(_fdiv(fx, fy))))
             if op == 'Rem':
-                import math
-                try:
-                    r = math.fmod(fx, fy)
-                except ValueError:
-                    r = float('nan')
-                return Sc('f64', _canon(S.f2b(r)))
+                from .models import _libm2
+                return Sc('f64', _canon(S.f2b(_libm2('fmod')(fx, fy))))
             c = {'Eq': fx == fy, 'Ne': fx != fy, 'Lt': fx < fy, 'Le': fx <= fy, 'Gt': fx > fy, 'Ge': fx >= fy}.get(op)
             if c is not None:
                 return Sc('bool', int(c))
@@ -1323,8 +1322,11 @@ class Interp:
 
     # -- calls -------------------------------------------------------------------------------------
     def call_body(self, mir, name, body, args, tyenv):
-        if name in self.hooks:
-            return self.hooks[name](self, args)
+        if self.hooks:
+            h = self.hooks.get(name) or self.hooks.get(split_path(name)[-1])
+            if h is not None:
+                self.stubs_used[split_path(name)[-1]] = self.stubs_used.get(split_path(name)[-1], 0) + 1
+                return h(self, args)
         if self.observers:
             ob = self.observers.get(split_path(name)[-1])
             if ob is not None:
